@@ -2,6 +2,8 @@
     reclaimed exactly once, for both outcomes of the cancellation race.
     Property theorems only; model in Model/OpState.v, proofs in Proofs/OpStateInv.v and
     Proofs/OpStateProofs.v. *)
+(* the small-step race model first: the names of Model/OpState.v imported next take precedence *)
+From A10 Require Import Model.OpRace Proofs.OpRaceProofs.
 From A10 Require Import Base.Word Base.Run Model.OpState Proofs.OpStateInv Proofs.OpStateProofs.
 
 (** One step: a drop queues exactly [Cancel i] iff the operation is running and the queue has
@@ -30,3 +32,22 @@ Print Assumptions C06_drop_cancels_exactly_it.
 Print Assumptions C06_cancel_targets_only_dropped.
 Print Assumptions C06_state_freed_at_most_once.
 Print Assumptions C06_dropped_state_is_reclaimed.
+
+(** * Under the poll / drop versus dispatch race (Model/OpRace.v, small-step at hook-B
+    granularity; all programs obeying [progs_ok], ALL interleavings; replayed against the real
+    code by the driver C03R on every run of this check): the state box is freed at most once and
+    never touched afterwards; a dropped running operation is freed exactly when its final
+    completion is dispatched and is never orphaned; at most one cancel request per operation,
+    only for a dropped one. *)
+Theorem C06_race_state_reclaimed_exactly_once : OpRaceProofs.race_state_reclaimed_exactly_once.
+Proof. exact OpRaceProofs.race_state_reclaimed_exactly_once_holds. Qed.
+
+(** Seeded change C06-a (status check and Dropped store under different lock acquisitions):
+    the state is leaked and a finished operation is asked to be cancelled. *)
+Theorem C06_race_reclaimed_c06a_leaks : OpRaceProofs.race_reclaimed_c06a_leaks.
+Proof. exact OpRaceProofs.race_reclaimed_c06a_leaks_holds. Qed.
+
+Check C06_race_state_reclaimed_exactly_once : OpRaceProofs.race_state_reclaimed_exactly_once.
+Check C06_race_reclaimed_c06a_leaks : OpRaceProofs.race_reclaimed_c06a_leaks.
+Print Assumptions C06_race_state_reclaimed_exactly_once.
+Print Assumptions C06_race_reclaimed_c06a_leaks.
